@@ -6,7 +6,8 @@ import ast
 from sa.astx import NotConst, call_attr, call_name, const_eval, lin_expect, lincmp, module_consts, src, walk_local
 from sa.selftest import Mutant, Silent
 from sa.source import class_assigns
-from sa.props._lib_f import (assign_sites, call_sites, from_here, local_assignments, named_calls, none_guard, param_names, truth_guard)
+from sa.source import AnalysisError
+from sa.props._lib_f import (InterpError, ModelRaised, call_repo, assign_sites, call_sites, from_here, local_assignments, named_calls, none_guard, param_names, truth_guard)
 
 PROPERTY = "C27"
 CL = "web/client.py"
@@ -16,7 +17,7 @@ EXPLANATION = (
     "Decides: (a) paired arguments in RedirectAgent._handleRedirect: the Location is resolved against requestURI (which defaults to uri only when None), "
     "the URI handed to the next hop's _handleResponse as requestURI is the very expression requested from the inner agent, uri/method/count are "
     "carried through by position at every hand-over (request -> _handleResponse -> _handleRedirect -> _handleResponse) (F27, fixed); (b) the limit test "
-    "redirectCount >= limit raises before the request, the count passed on is redirectCount + 1 starting from 0, a missing Location raises; (c) on the "
+    "redirectCount >= limit raises before the request, the count passed on is redirectCount + 1 starting from 0, a missing Location raises, __init__ is interpreted for limits 0/1/2/20 (the configured value must be stored unchanged; no truthiness test on limit/count); (c) on the "
     "not-same-origin edge (and only the tests `headers`, `not sameOrigin`, the limit and the missing-Location test may dominate the comparison and the stripping) the headers sent are rebuilt by the comprehension that drops every name in _sensitiveHeaderNames, sameOrigin is the conjunction "
     "of scheme, host and port equality between the ORIGINAL uri and the target, the default set contains Authorization/Cookie/Proxy-Authorization in "
     "canonical capitalisation (evaluated with the Headers canonicaliser's rule) and configured names are canonicalised; (d) status tables of both agents: "
@@ -130,6 +131,50 @@ def check(ctx):
                   "a redirect without a Location header is not refused")
         for r in raises:
             ctx.check("ResponseFailed" in src(g.node(r).ast), "limit/no-location", ctx.construct(q, g.node(r).ast), "the refusal is not reported as ResponseFailed")
+
+    # ---- (b') the configured limit reaches the comparison unchanged, 0 included -------------------------------------------
+    with ctx.section("limit-configured"):
+        init = ctx.func(CL, "RedirectAgent.__init__")
+        qi = Q + "__init__"
+        consts = {}
+        for k_, v_ in class_assigns(ctx.cls(CL, "RedirectAgent")).items():
+            c_ = _const(v_)
+            if c_ is not None:
+                consts[k_] = c_
+
+        class _SelfModel:
+            _sa_model = True
+        for k_, v_ in consts.items():
+            setattr(_SelfModel, k_, v_)
+        bad = []
+        try:
+            for L in (0, 1, 2, 20):
+                st_ = {}
+                call_repo(init, ["<agent>"], {"redirectLimit": L}, selfobj=_SelfModel(), funcs={"_canonicalHeaderName": lambda x: x},
+                          env={"_defaultSensitiveHeaders": frozenset()}, state=st_)
+                got = st_.get("self._redirectLimit", "<not stored>")
+                if got != L or isinstance(got, bool):
+                    bad.append((L, got))
+        except (InterpError, ModelRaised) as e:
+            raise AnalysisError(f"C27: RedirectAgent.__init__ is not interpretable: {e}")
+        ctx.check(not bad, "limit/configured-value", qi, f"RedirectAgent(agent, redirectLimit={bad[0][0]}) stores _redirectLimit = {bad[0][1]!r}: the configured limit does not reach the "
+                  "comparison unchanged (limit 0 = 'follow no redirect' silently becomes the default)" if bad else "")
+        # truthiness on numeric values whose domain includes 0
+        NUMERIC = {"redirectLimit", "redirectCount", "self._redirectLimit"}
+        for fn_, qn_ in ((init, qi), (hr, q), (hp, qp)):
+            for node in walk_local(fn_):
+                ops = []
+                if isinstance(node, ast.BoolOp):
+                    ops = node.values
+                elif isinstance(node, ast.UnaryOp) and isinstance(node.op, ast.Not):
+                    ops = [node.operand]
+                elif isinstance(node, (ast.If, ast.While, ast.IfExp)):
+                    ops = [node.test]
+                for o_ in ops:
+                    if src(o_) in NUMERIC:
+                        ctx.violation("limit/numeric-truthiness", ctx.construct(qn_, node if not isinstance(node, (ast.If, ast.While)) else node.test),
+                                      f"`{src(o_)}` is tested for truthiness / or-defaulted although 0 is a meaningful value of it")
+        ctx.ok("limit/numeric-truthiness", Q + "<limit and count are compared, never truth-tested>")
 
     # ---- (c) credentials -------------------------------------------------------------------------------
     with ctx.section("credentials"):
@@ -346,6 +391,7 @@ MUTANTS = [
     Mutant("revert-F27-resolve-against-original", CL, "        location = self._resolveLocation(requestURI, locationHeaders[0])", "        location = self._resolveLocation(uri, locationHeaders[0])"),
     Mutant("revert-F27-next-hop-forgets-location", CL, "            self._handleResponse, method, uri, headers, redirectCount + 1, location\n", "            self._handleResponse, method, uri, headers, redirectCount + 1\n"),
     Mutant("next-hop-remembers-request-uri", CL, "            self._handleResponse, method, uri, headers, redirectCount + 1, location\n", "            self._handleResponse, method, uri, headers, redirectCount + 1, requestURI\n"),
+    Mutant("limit-zero-falls-back-to-default", CL, "        self._redirectLimit = redirectLimit\n", "        self._redirectLimit = redirectLimit if redirectLimit else 20\n"),
     Mutant("limit-off-by-one", CL, "        if redirectCount >= self._redirectLimit:", "        if redirectCount > self._redirectLimit:"),
     Mutant("count-not-incremented", CL, "headers, redirectCount + 1, location\n", "headers, redirectCount, location\n"),
     Mutant("origin-check-skipped-for-locations-without-scheme", CL, "        if headers:\n            parsedURI = URI.fromBytes(uri)", "        if headers and locationHeaders[0].find(b\":\") != -1:\n            parsedURI = URI.fromBytes(uri)"),
@@ -370,6 +416,7 @@ MUTANTS = [
            "            return self._handleRedirect(\n                response, method, uri, headers, redirectCount\n            )"),
 ]
 SILENT = [
+    Silent("limit-none-means-default", CL, "        self._redirectLimit = redirectLimit\n", "        self._redirectLimit = 20 if redirectLimit is None else redirectLimit\n"),
     Silent("headers-none-test", CL, "        if headers:\n            parsedURI = URI.fromBytes(uri)", "        if headers is not None and headers:\n            parsedURI = URI.fromBytes(uri)"),
     Silent("same-origin-against-previous-hop-stripped-headers-carried", CL, "            parsedURI = URI.fromBytes(uri)\n            parsedLocation", "            parsedURI = URI.fromBytes(requestURI)\n            parsedLocation"),
     Silent("limit-flipped", CL, "        if redirectCount >= self._redirectLimit:", "        if not redirectCount < self._redirectLimit:"),
